@@ -211,8 +211,19 @@ func (e *c12env) emit(kind string, reader bool, cap int, init []byte, ops []c12o
 		nt = readAway
 		k = 1
 	}
+	// an in-memory observation list identical to the os.File's is written as None (smaller files)
+	sos := c12outs(osO)
+	opt := func(o []c12out, used bool) string {
+		if !used {
+			return "(Some [])"
+		}
+		if s := c12outs(o); s != sos {
+			return hlib.Some(s)
+		}
+		return "None"
+	}
 	coq := fmt.Sprintf("mkcase %d %d %s %s %s %s %s %s", k, cap, hlib.Bytes(init), hlib.List(sops),
-		c12outs(bufO), c12outs(memO), c12outs(rdrO), c12outs(osO))
+		opt(bufO, !reader), opt(memO, !reader), opt(rdrO, reader), sos)
 	var tags []string
 	for _, o := range ops {
 		if (o.k == 0 || o.k == 1) && len(o.p) == 0 {
